@@ -173,7 +173,9 @@ def enabled (s : PeerSys) : Act → Bool
   | .cmdOpen _ _ _ sid => freshSid s sid
   | .cmdClose => true
   | .taskSeesSignal t => hasTask s t fun k => k.phase = .running && k.signalled
-  | .taskSeesClose t => hasTask s t fun k => k.phase = .running
+  -- `poll_next` looks at the shutdown oneshot first: a task whose oneshot has fired (or whose sender was
+  -- dropped) before a poll starts closes quietly in that poll, whatever else it could see
+  | .taskSeesClose t => hasTask s t fun k => k.phase = .running && !k.signalled
   | .taskNotice t => hasTask s t fun k => match k.phase with | .closing _ => true | _ => false
   | .taskReport t => hasTask s t fun k => k.phase = .noticed
 
@@ -247,15 +249,36 @@ def Act.isTask : Act → Bool
   | .taskSeesSignal _ | .taskSeesClose _ | .taskNotice _ | .taskReport _ => true
   | _ => false
 
-/-- Scheduling hypothesis of the `_partial` theorems: once a connection task has started to close, it
-finishes (notice delivered, `NotificationStreamClosed` reported) before the protocol handles anything
-else for that peer. Only the task's own steps and the delivery of its notice are allowed meanwhile.
-(That a notice already in the channel is taken before later transport events and user commands is what
-the biased `select!` of `next_event` does; that the task gets from "closing" to "notice sent" in time is
-the genuine assumption: it fails when `Substream::close()` stays pending.) -/
+/-- A connection task of the peer is inside `close_connection` (it has decided to close and has not yet
+reported `NotificationStreamClosed`). -/
+def InClose (s : PeerSys) : Bool :=
+  s.tasks.any fun k => k.phase ≠ .running
+
+def quietOuts (outs : List Out) : Bool :=
+  outs.all fun o => match o with | .opened .. => false | .fail _ => false | _ => true
+
+/-- The step reports neither `opened` nor an open failure to the user. -/
+def quietAct (s : PeerSys) (a : Act) : Bool := quietOuts (outsOf s a)
+
+/-- Scheduling hypothesis of the `_partial` theorems, in two parts.
+
+1. A connection task that has entered `close_connection` finishes (notice delivered, if any, and
+   `NotificationStreamClosed` reported) before the protocol handles anything else for that peer. Only the
+   task's own steps and the delivery of its notice are allowed meanwhile. (That a notice already in the
+   channel is taken before later transport events and user commands is what the biased `select!` of
+   `next_event` does; that the task gets from "closing" to "notice sent" in time is the genuine assumption:
+   it fails when `Substream::close()` stays pending. Finding `stale-connection-task`.)
+2. A connection task whose shutdown oneshot has fired (or was dropped) but which the executor has not polled
+   since — it is still `running` here — may stay unpolled while the protocol handles ANY further events of
+   that peer (disconnect, reconnect, a new negotiation …), as long as the protocol does not report `opened`
+   or an open failure for that peer before the task has run: then the task's `NotificationStreamClosed`
+   would come late on the user channel. (Pure executor fairness; finding `late-closed-report`. Nothing is
+   assumed about a task that has not been polled yet beyond this.) -/
 def prompt (s : PeerSys) (a : Act) : Bool :=
-  if Busy s || s.notices > 0 then
+  if InClose s || s.notices > 0 then
     a.isTask || (match a with | .notice => true | _ => false)
+  else if Busy s then
+    a.isTask || quietAct s a
   else true
 
 /-- Usage hypothesis of `inbound_after_accept_partial`: a validation answer reaches the protocol only
@@ -267,7 +290,7 @@ def freshAnswer (s : PeerSys) : Act → Bool
     | _ => true
   | _ => true
 
-/-- The reachable states of the restricted system: `Reach` minus the two known findings. -/
+/-- The reachable states of the restricted system: `Reach` minus the known findings. -/
 inductive ReachP : PeerSys → Prop
   | init : ReachP {}
   | step {s : PeerSys} (a : Act) :
